@@ -1,526 +1,56 @@
-(** The two `debug_assert!(time >= self.filter_time)` sites of kalman.rs
-    (InnerFilter::progress_filtertime, reached through the running filter and
-    through the wander filter).
+(** F15 — `debug_assert!(time >= self.filter_time)` in InnerFilter::progress_filtertime.
+    The assertion was reachable in debug builds whenever the clock returned a time
+    earlier than the running filter's time (event time stamped ahead of the clock).
+    Fix b057ba6 deleted it (the early return it duplicated stays).  In the model the
+    panic site no longer exists: [inner_progress] cannot panic for that reason in
+    either build mode, and debug and release builds now behave identically on the
+    stream that used to separate them.
 
-    Invariant (NOT "the two filter times are equal", which is false: the wander
-    filter is replaced by a clone of the running filter BEFORE the running filter
-    is progressed to the event time):
-        wander_filter.filter_time <= running_filter.filter_time,
-        and the wander filter exists only if the running filter does.
-
-    Consequence, for debug builds: if every time returned by the clock during an
-    event is at least the event time (resp. the running filter's time for
-    update/demobilize), the assertion cannot fail -- in particular it can never
-    fail "because of" the wander filter or in [measurement]'s own progress calls.
-    The only way to reach it is a clock reply earlier than the filter time (F15). *)
+    (Remark kept from the analysis of the old code: the two filter times are NOT always
+    equal, as DESIGN assumed; the wander filter is cloned from the running filter before
+    the latter is progressed, so only wander.filter_time <= running.filter_time holds.) *)
 From Coq Require Import Lia ZArith Floats.
 From SV Require Import Filter.FloatBits Filter.FilterCases Filter.FilterLemmas.
 Local Open Scope Z_scope.
 
-Definition tle (a b : option inner) : Prop :=
-  match a, b with Some w, Some r => i_time w <= i_time r | _, _ => True end.
-Definition otime_le (a : option inner) (t : Z) : Prop :=
-  match a with Some f => i_time f <= t | None => True end.
-Definition otime_eq (a : option inner) (t : Z) : Prop :=
-  match a with Some f => i_time f = t | None => False end.
+(** progressing to an earlier time is a no-op in both build modes *)
+Lemma progress_earlier_is_noop dbg cfg f time w :
+  time < i_time f -> inner_progress dbg cfg f time w = Ok f.
+Proof. intros H. unfold inner_progress. destruct (time <? i_time f) eqn:E; [reflexivity | lia]. Qed.
 
-Definition TInv (s : kstate) : Prop :=
-  tle (k_wan s) (k_run s) /\ (k_run s = None -> k_wan s = None /\ k_cur s = None).
-
-Definition not_assert {A} (o : outcome A) : Prop :=
-  match o with Panic st => st <> site_progress_assert | Ok _ => True end.
-
-Section Sites.
-  Variable exp_fn : float -> float.
-  Variable cfg : kcfg.
-  Let dbg := true.
-
-  (** -- primitives -- *)
-  Lemma inner_progress_ok f time w :
-    i_time f <= time ->
-    not_assert (inner_progress dbg cfg f time w) /\
-    forall f', inner_progress dbg cfg f time w = Ok f' -> i_time f' = time.
-  Proof.
-    intros H. unfold inner_progress. destruct (time <? i_time f) eqn:E; [lia|].
-    unfold t_diff, d_of_time, d_sub, d_neg, d_add, w_i128. unfold dbg.
-    repeat (match goal with |- context [if ?b then _ else _] => destruct b end; simpl);
-      (split; [try exact I; try discriminate | intros f' Hf; inversion Hf; reflexivity || discriminate]).
-  Qed.
-
-  Lemma base_progress_ok b time w :
-    otime_le b time ->
-    not_assert (base_progress dbg cfg b time w) /\
-    forall b', base_progress dbg cfg b time w = Ok b' -> otime_eq b' time.
-  Proof.
-    intros H. destruct b as [f|]; simpl in * .
-    - destruct (inner_progress_ok f time w H) as [H1 H2].
-      destruct (inner_progress dbg cfg f time w) as [f'|st] eqn:E; simpl in * .
-      + split; [exact I|]. intros b' Hb. inversion Hb; subst. simpl. apply H2. reflexivity.
-      + split; [exact H1 | discriminate].
-    - split; [exact I|]. intros b' Hb. inversion Hb; subst. reflexivity.
-  Qed.
-
-  Lemma base_freq_steer_ok b steer time w :
-    otime_le b time ->
-    not_assert (base_freq_steer dbg cfg b steer time w) /\
-    forall b', base_freq_steer dbg cfg b steer time w = Ok b' -> otime_eq b' time.
-  Proof.
-    intros H. destruct b as [f|]; simpl in * .
-    - unfold inner_freq_steer. destruct (inner_progress_ok f time w H) as [H1 H2].
-      destruct (inner_progress dbg cfg f time w) as [f'|st] eqn:E; simpl in * .
-      + split; [exact I|]. intros b' Hb. inversion Hb; subst. simpl. apply H2. reflexivity.
-      + split; [exact H1 | discriminate].
-    - split; [exact I|]. intros b' Hb. inversion Hb; subst. reflexivity.
-  Qed.
-
-  Lemma base_absorb_offset_time b h z v :
-    match b, base_absorb_offset cfg b h z v with
-    | Some f, Some f' => i_time f' = i_time f
-    | None, None => True
-    | _, _ => False
-    end.
-  Proof.
-    destruct b as [f|]; simpl; [|exact I].
-    destruct (_ <. _); simpl; [reflexivity|]. unfold inner_absorb.
-    destruct (inner_predict f h). reflexivity.
-  Qed.
-
-  Lemma base_absorb_peer_time b z v :
-    match b, base_absorb_peer b z v with
-    | Some f, Some f' => i_time f' = i_time f
-    | None, None => True
-    | _, _ => False
-    end.
-  Proof.
-    destruct b as [f|]; simpl; [|exact I]. unfold inner_absorb.
-    destruct (inner_predict f H_PEER). reflexivity.
-  Qed.
-
-  (* the same duration is added (saturating) to both filter times *)
-  Lemma base_offset_steer_mono w r steer w' r' :
-    tle w r -> (r = None -> w = None) ->
-    base_offset_steer dbg r steer = Ok r' -> base_offset_steer dbg w steer = Ok w' ->
-    tle w' r' /\ (r' = None -> w' = None) /\ (r = None <-> r' = None).
-  Proof.
-    intros Hle Hn Hr Hw. destruct r as [fr|], w as [fw|]; simpl in * .
-    - unfold inner_offset_steer in * .
-      destruct (d_from_seconds dbg steer) as [d|]; simpl in * ; [|discriminate].
-      unfold t_add_d in * .
-      destruct (d <? 0); inversion Hr; inversion Hw; subst; simpl;
-        (split; [lia | split; [discriminate | split; discriminate]]).
-    - inversion Hw; subst. unfold inner_offset_steer in Hr.
-      destruct (d_from_seconds dbg steer) as [d|]; simpl in Hr; [|discriminate].
-      destruct (t_add_d (i_time fr) d); simpl in Hr; inversion Hr; subst.
-      simpl. split; [exact I | split; [discriminate | split; discriminate]].
-    - specialize (Hn eq_refl). discriminate.
-    - inversion Hr; inversion Hw; subst. simpl. split; [exact I | split; [reflexivity | split; reflexivity]].
-  Qed.
-
-  (** -- the estimator / wander part never reaches the assertion when the gate of
-         [measurement] has passed -- *)
-  Lemma panic_not_assert_range e : not_assert (est_measurement_variance cfg e).
-  Proof.
-    unfold est_measurement_variance. destruct (_ <? _); [exact I|].
-    destruct (_ <? _); [|exact I]. unfold est_range_size.
-    destruct (est_max (est_taken e)), (est_min (est_taken e)); simpl; try exact I; discriminate.
-  Qed.
-
-  Lemma wander_score_update_shape s u p a :
-    not_assert (wander_score_update exp_fn cfg s u p a) /\
-    forall s', wander_score_update exp_fn cfg s u p a = Ok s' ->
-      k_run s' = k_run s /\ k_cur s' = k_cur s /\ (k_wan s' = k_wan s \/ k_wan s' = k_run s).
-  Proof.
-    unfold wander_score_update. pose proof (panic_not_assert_range (k_est s)) as Hp.
-    destruct (est_measurement_variance cfg (k_est s)) as [mv|st]; simpl in * .
-    2:{ split; [exact Hp | discriminate]. }
-    destruct (_ <. _).
-    { split; [exact I|]. intros s' H. inversion H; subst; simpl. auto. }
-    destruct (_ <. _).
-    { split; [exact I|]. intros s' H. inversion H; subst; simpl. auto. }
-    split; [exact I|]. intros s' H. inversion H; subst. auto.
-  Qed.
-
-  Lemma update_wander_shape s m :
-    otime_le (k_wan s) (m_time m) ->
-    not_assert (update_wander exp_fn dbg cfg s m) /\
-    forall s', update_wander exp_fn dbg cfg s m = Ok s' ->
-      k_run s' = k_run s /\ k_cur s' = k_cur s /\ (otime_eq (k_wan s') (m_time m) \/ k_wan s' = k_run s).
-  Proof.
-    intros Hw. unfold update_wander.
-    destruct (base_progress_ok (k_wan s) (m_time m) (k_wander s) Hw) as [P1 P2].
-    destruct (base_progress dbg cfg (k_wan s) (m_time m) (k_wander s)) as [w|st] eqn:Ew; simpl.
-    2:{ split; [exact P1 | discriminate]. }
-    specialize (P2 w eq_refl).
-    set (s0 := mk_kstate (k_run s) w (k_score s) (k_wander s) (k_wme s) (k_est s) (k_cur s) (k_near s)).
-    (* sync part *)
-    assert (S1 : forall o1 : outcome kstate,
-               o1 = match m_sync m with
-                    | Some so => let '(p, u) := base_predict cfg (k_wan s0) H_SYNC in
-                                 wander_score_update exp_fn cfg s0 u p (dur_seconds so)
-                    | None => Ok s0 end ->
-               not_assert o1 /\
-               forall s1, o1 = Ok s1 -> k_run s1 = k_run s /\ k_cur s1 = k_cur s /\
-                                        (otime_eq (k_wan s1) (m_time m) \/ k_wan s1 = k_run s)).
-    { intros o1 ->. destruct (m_sync m).
-      - destruct (base_predict cfg (k_wan s0) H_SYNC) as [p u].
-        destruct (wander_score_update_shape s0 u p (dur_seconds z)) as [Q1 Q2].
-        split; [exact Q1|]. intros s1 H1. destruct (Q2 s1 H1) as (A & B & C).
-        simpl in A, B, C. repeat split; auto. destruct C as [C | C]; rewrite C; auto.
-      - split; [exact I|]. intros s1 H1. inversion H1; subst. simpl. auto. }
-    specialize (S1 _ eq_refl). destruct S1 as [S1a S1b].
-    match goal with |- context [obind ?x _] =>
-      assert (Hx : not_assert x /\ forall s1, x = Ok s1 -> k_run s1 = k_run s /\ k_cur s1 = k_cur s /\
-                     (otime_eq (k_wan s1) (m_time m) \/ k_wan s1 = k_run s)) by exact (conj S1a S1b);
-      clear S1a S1b; destruct x as [s1|st1] end; destruct Hx as [S1a S1b]; simpl.
-    2:{ split; [exact S1a | discriminate]. }
-    destruct (S1b s1 eq_refl) as (A1 & B1 & C1).
-    (* delay part *)
-    assert (S2 : not_assert (match m_dly m with
-                    | Some d => let '(p, u) := base_predict cfg (k_wan s1) H_DELAY in
-                                wander_score_update exp_fn cfg s1 u p (dur_seconds d)
-                    | None => Ok s1 end) /\
-               forall s2, match m_dly m with
-                    | Some d => let '(p, u) := base_predict cfg (k_wan s1) H_DELAY in
-                                wander_score_update exp_fn cfg s1 u p (dur_seconds d)
-                    | None => Ok s1 end = Ok s2 ->
-                    k_run s2 = k_run s /\ k_cur s2 = k_cur s /\
-                    (otime_eq (k_wan s2) (m_time m) \/ k_wan s2 = k_run s)).
-    { destruct (m_dly m).
-      - destruct (base_predict cfg (k_wan s1) H_DELAY) as [p u].
-        destruct (wander_score_update_shape s1 u p (dur_seconds z)) as [Q1 Q2].
-        split; [exact Q1|]. intros s2 H2. destruct (Q2 s2 H2) as (A & B & C).
-        repeat split; try congruence. destruct C as [C | C]; rewrite C; auto.
-      - split; [exact I|]. intros s2 H2. inversion H2; subst. auto. }
-    destruct S2 as [S2a S2b].
-    match goal with |- context [obind ?x _] =>
-      assert (Hx : not_assert x /\ forall s2, x = Ok s2 -> k_run s2 = k_run s /\ k_cur s2 = k_cur s /\
-                     (otime_eq (k_wan s2) (m_time m) \/ k_wan s2 = k_run s)) by exact (conj S2a S2b);
-      clear S2a S2b; destruct x as [s2|st2] end; destruct Hx as [S2a S2b]; simpl.
-    2:{ split; [exact S2a | discriminate]. }
-    destruct (S2b s2 eq_refl) as (A2 & B2 & C2).
-    destruct (in_i 8 (- wrap_i 8 (c_hyst cfg))); simpl.
-    2:{ split; [discriminate | discriminate]. }
-    split; [exact I|]. intros s' H. inversion H; subst; clear H.
-    destruct (k_score s2 <? _); simpl;
-      match goal with |- context [if ?c then _ else _] => destruct c end; simpl; auto.
-  Qed.
-End Sites.
-
-(** -- a Hoare logic that also tracks the clock's replies -- *)
-Definition reply_ge (T : Z) (r : reply) : Prop := match r with Some t => T <= t | None => True end.
-Definition replies_ge (T : Z) (c : clk) : Prop := Forall (reply_ge T) (c_replies c).
-
-Definition aspec {A} (T : Z) (m : CM A) (Q : A -> Prop) : Prop :=
-  forall c, replies_ge T c ->
-    replies_ge T (fst (m c)) /\
-    match snd (m c) with Ok a => Q a | Panic st => st <> site_progress_assert end.
-
-Lemma aspec_ret {A} T (a : A) (Q : A -> Prop) : Q a -> aspec T (mret a) Q.
-Proof. intros H c Hc. simpl. auto. Qed.
-
-Lemma aspec_bind {A B} T (m : CM A) (f : A -> CM B) (Q1 : A -> Prop) (Q2 : B -> Prop) :
-  aspec T m Q1 -> (forall a, Q1 a -> aspec T (f a) Q2) -> aspec T (mbind m f) Q2.
+(** ... and the build mode no longer matters for [inner_progress] when no fixed-point
+    overflow occurs (times below 2^127) *)
+Lemma progress_mode_independent cfg f time w :
+  0 <= i_time f < 2 ^ 127 -> 0 <= time < 2 ^ 127 ->
+  inner_progress true cfg f time w = inner_progress false cfg f time w.
 Proof.
-  intros Hm Hf c Hc. unfold mbind. specialize (Hm c Hc).
-  destruct (m c) as [c1 r]. simpl in Hm. destruct Hm as [H1 H2].
-  destruct r as [a | s]; simpl; auto. apply Hf; auto.
+  intros Hf Ht. unfold inner_progress. destruct (time <? i_time f); [reflexivity|].
+  unfold t_diff, d_of_time, d_sub, d_neg, d_add, w_i128.
+  assert (H1 : in_i 128 time = true) by (unfold in_i; lia).
+  assert (H2 : in_i 128 (i_time f) = true) by (unfold in_i; lia).
+  rewrite H1, H2. cbn [obind].
+  assert (H3 : in_i 128 (- i_time f) = true) by (unfold in_i; lia).
+  rewrite H3. cbn [obind].
+  assert (H4 : in_i 128 (time + - i_time f) = true) by (unfold in_i; lia).
+  rewrite H4. reflexivity.
 Qed.
 
-Lemma aspec_lift {A} T (o : outcome A) (Q : A -> Prop) :
-  not_assert o -> (forall a, o = Ok a -> Q a) -> aspec T (mlift o) Q.
-Proof. intros Hn H c Hc. unfold mlift. simpl. split; auto. destruct o; auto. Qed.
+Definition kalman_default_cfg : kcfg :=
+  kcfg_bits 4294967000000000 0 8589934592000000000 4641240890982006784 4645744490609377280
+            4547007122018943789 4367597403136100796 4493980547052782275 4599676419421066581
+            4604180019048437077 16 858993459200000000 4 8 4611686018427387904.
 
-Lemma aspec_call T (x : cmd) (Q : reply -> Prop) :
-  (forall r, reply_ge T r -> Q r) -> aspec T (mcall x) Q.
-Proof.
-  intros HQ c Hc. unfold mcall, clk_call. unfold replies_ge in * .
-  destruct (c_replies c) as [|r rs] eqn:E; simpl.
-  - split; [constructor | apply HQ; exact I].
-  - inversion Hc; subst. split; [assumption | apply HQ; assumption].
-Qed.
-
-Section Events.
-  Variable exp_fn : float -> float.
-  Variable cfg : kcfg.
-  Let dbg := true.
-
-  (* inside [measurement], after the running filter has been progressed to T *)
-  Definition SInv (T : Z) (s : kstate) : Prop :=
-    otime_eq (k_run s) T /\ otime_le (k_wan s) T.
-
-  Lemma SInv_TInv T s : SInv T s -> TInv s.
-  Proof.
-    intros [H1 H2]. unfold TInv, tle, otime_eq, otime_le in * .
-    destruct (k_run s) as [r|]; [|contradiction]. split.
-    - destruct (k_wan s); [lia | exact I].
-    - discriminate.
-  Qed.
-
-  Lemma d_from_seconds_na x : not_assert (d_from_seconds dbg x).
-  Proof.
-    unfold d_from_seconds, dur_from_seconds, f2fix, fix_mul, w_i128, dbg.
-    destruct (f_scaled_to_Z x); simpl; [|discriminate].
-    destruct (in_i 128 z); simpl; [|discriminate].
-    destruct (in_i 128 _); simpl; [exact I | discriminate].
-  Qed.
-
-  Lemma mean_delay_update_na s : not_assert (mean_delay_update dbg s).
-  Proof.
-    unfold mean_delay_update. pose proof (d_from_seconds_na (base_mean_delay (k_run s))) as H.
-    destruct (d_from_seconds dbg (base_mean_delay (k_run s))); simpl in * ; auto.
-  Qed.
-
-  Lemma steer_target_na s : not_assert (steer_target cfg s).
-  Proof. unfold steer_target. destruct (fclamp _ _ _); simpl; [exact I | discriminate]. Qed.
-
-  Lemma variance_factor_na s : not_assert (variance_factor cfg s).
-  Proof.
-    unfold variance_factor. pose proof (panic_not_assert_range cfg (k_est s)) as H.
-    destruct (est_measurement_variance cfg (k_est s)); simpl in * ; auto.
-  Qed.
-
-  Lemma t_diff_na a b : not_assert (t_diff dbg a b).
-  Proof.
-    unfold t_diff, d_of_time, d_sub, d_neg, d_add, w_i128, dbg.
-    repeat (match goal with |- context [if ?b then _ else _] => destruct b end; simpl);
-      try exact I; discriminate.
-  Qed.
-
-  Lemma d_abs_na a : not_assert (d_abs dbg a).
-  Proof. unfold d_abs, w_i128, dbg. destruct (in_i 128 _); simpl; [exact I | discriminate]. Qed.
-
-  Lemma est_absorb_na e m f : not_assert (est_absorb dbg cfg e m f).
-  Proof.
-    unfold est_absorb.
-    assert (Hp : forall a b (k : Z -> outcome estimator),
-               (forall d, not_assert (k d)) -> not_assert (obind (t_diff dbg a b) k)).
-    { intros a b k Hk. pose proof (t_diff_na a b). destruct (t_diff dbg a b); simpl in * ; auto. }
-    assert (Ha : forall a (k : Z -> outcome estimator),
-               (forall d, not_assert (k d)) -> not_assert (obind (d_abs dbg a) k)).
-    { intros a k Hk. pose proof (d_abs_na a). destruct (d_abs dbg a); simpl in * ; auto. }
-    assert (H1 : not_assert
-      match m_sync m with
-      | Some sync_offset =>
-          match e_last_delay e with
-          | Some (time, delay_offset) =>
-              let e' := mk_est (e_data e) (e_next e) (e_fill e) (e_last_sync e) None (e_peer e) in
-              let! d := t_diff dbg (m_time m) time in
-              let! ad := d_abs dbg d in
-              if ad <? c_est_threshold cfg then
-                let! d2 := t_diff dbg time (m_time m) in
-                Ok (est_insert e' (dur_seconds sync_offset -. dur_seconds delay_offset +. dur_seconds d2 *. f))
-              else
-                Ok (mk_est (e_data e') (e_next e') (e_fill e') (Some (m_time m, sync_offset)) None (e_peer e'))
-          | None =>
-              Ok (mk_est (e_data e) (e_next e) (e_fill e) (Some (m_time m, sync_offset)) (e_last_delay e) (e_peer e))
-          end
-      | None => Ok e
-      end).
-    { destruct (m_sync m); [|exact I]. destruct (e_last_delay e) as [[time dly]|]; [|exact I].
-      cbv zeta. apply Hp. intros d. apply Ha. intros ad. destruct (_ <? _); [|exact I].
-      apply Hp. intros d2. exact I. }
-    match goal with |- not_assert (obind ?x _) => assert (Hx : not_assert x) by exact H1; destruct x as [e1|st1]; simpl; [|exact Hx] end.
-    clear Hx.
-    clear H1.
-    assert (H2 : not_assert
-      match m_dly m with
-      | Some delay_offset =>
-          match e_last_sync e1 with
-          | Some (time, sync_offset) =>
-              let e' := mk_est (e_data e1) (e_next e1) (e_fill e1) None (e_last_delay e1) (e_peer e1) in
-              let! d := t_diff dbg (m_time m) time in
-              let! ad := d_abs dbg d in
-              if ad <? c_est_threshold cfg then
-                Ok (est_insert e' (dur_seconds sync_offset -. dur_seconds delay_offset +. dur_seconds d *. f))
-              else
-                Ok (mk_est (e_data e') (e_next e') (e_fill e') None (Some (m_time m, delay_offset)) (e_peer e'))
-          | None =>
-              Ok (mk_est (e_data e1) (e_next e1) (e_fill e1) (e_last_sync e1) (Some (m_time m, delay_offset)) (e_peer e1))
-          end
-      | None => Ok e1
-      end).
-    { destruct (m_dly m); [|exact I]. destruct (e_last_sync e1) as [[time so]|]; [|exact I].
-      cbv zeta. apply Hp. intros d. apply Ha. intros ad. destruct (_ <? _); exact I. }
-    match goal with |- not_assert (obind ?x _) => assert (Hx : not_assert x) by exact H2; destruct x as [e2|st2]; simpl; [|exact Hx] end.
-    destruct (m_peer m); exact I.
-  Qed.
-
-  (** change_frequency from a state whose filters are not ahead of T *)
-  Lemma change_frequency_aspec T s t :
-    otime_le (k_run s) T -> otime_le (k_wan s) T -> TInv s ->
-    aspec T (change_frequency dbg cfg s t) TInv.
-  Proof.
-    intros Hr Hw Hi. unfold change_frequency. destruct (k_cur s) as [cur|] eqn:Ec; [|apply aspec_ret; exact Hi].
-    eapply aspec_bind with (Q1 := reply_ge T).
-    { apply aspec_call. auto. }
-    intros [time|] Hge; [|apply aspec_ret; exact Hi]. simpl in Hge.
-    assert (Hr' : otime_le (k_run s) time) by (unfold otime_le in * ; destruct (k_run s); [lia | exact I]).
-    assert (Hw' : otime_le (k_wan s) time) by (unfold otime_le in * ; destruct (k_wan s); [lia | exact I]).
-    destruct (base_freq_steer_ok exp_fn cfg (k_run s) (clamp_adjustment cur (t -. base_freq_offset (k_run s) *. c_1e6) (c_max_freq_offset cfg)) time (k_wander s) Hr') as [R1 R2].
-    destruct (base_freq_steer_ok exp_fn cfg (k_wan s) (clamp_adjustment cur (t -. base_freq_offset (k_run s) *. c_1e6) (c_max_freq_offset cfg)) time (k_wander s) Hw') as [W1 W2].
-    eapply aspec_bind with (Q1 := fun run => otime_eq run time).
-    { apply aspec_lift; [exact R1 | exact R2]. }
-    intros run Hrun.
-    eapply aspec_bind with (Q1 := fun wan => otime_eq wan time).
-    { apply aspec_lift; [exact W1 | exact W2]. }
-    intros wan Hwan. apply aspec_ret.
-    unfold TInv, set_cur, set_filters; simpl. unfold otime_eq, tle in * .
-    destruct run as [r|]; [|contradiction]. destruct wan as [w|]; [|contradiction].
-    split; [lia | discriminate].
-  Qed.
-
-  Lemma kalman_step_aspec T s off : TInv s -> aspec T (kalman_step dbg s off) TInv.
-  Proof.
-    intros Hi. unfold kalman_step.
-    eapply aspec_bind with (Q1 := fun _ => True); [apply aspec_lift; [apply d_from_seconds_na | auto]|].
-    intros d _.
-    eapply aspec_bind with (Q1 := fun _ => True); [apply aspec_call; auto|].
-    intros [time|] _; [|apply aspec_ret; exact Hi].
-    destruct Hi as [Hle Hn].
-    destruct (base_offset_steer dbg (k_run s) (-. off)) as [run|st] eqn:Er.
-    2:{ intros c Hc. unfold mbind, mlift. simpl. split; [exact Hc|].
-        unfold base_offset_steer, inner_offset_steer in Er. destruct (k_run s); [|discriminate].
-        pose proof (d_from_seconds_na (-. off)) as Hd.
-        destruct (d_from_seconds dbg (-. off)) as [dd|]; simpl in * ; [|inversion Er; subst; exact Hd].
-        unfold t_add_d in Er. destruct (dd <? 0); simpl in Er; discriminate. }
-    destruct (base_offset_steer dbg (k_wan s) (-. off)) as [wan|st] eqn:Ew.
-    2:{ intros c Hc. unfold mbind, mlift. simpl. split; [exact Hc|].
-        unfold base_offset_steer, inner_offset_steer in Ew. destruct (k_wan s); [|discriminate].
-        pose proof (d_from_seconds_na (-. off)) as Hd.
-        destruct (d_from_seconds dbg (-. off)) as [dd|]; simpl in * ; [|inversion Ew; subst; exact Hd].
-        unfold t_add_d in Ew. destruct (dd <? 0); simpl in Ew; discriminate. }
-    assert (Hn' : k_run s = None -> k_wan s = None) by (intros H; apply Hn; exact H).
-    destruct (base_offset_steer_mono exp_fn _ _ _ _ _ Hle Hn' Er Ew) as (M1 & M2 & M3).
-    intros c Hc. unfold mbind, mlift, mret. simpl. split; [exact Hc|].
-    unfold TInv, set_filters; simpl. split; [exact M1|].
-    intros Hnone. split; [apply M2; exact Hnone | apply Hn, M3, Hnone].
-  Qed.
-
-  Lemma kalman_steer_aspec T s : SInv T s -> aspec T (kalman_steer dbg cfg s) (fun r => TInv (fst r)).
-  Proof.
-    intros Hs. pose proof (SInv_TInv T s Hs) as Hi. destruct Hs as [S1 S2].
-    assert (Hr : otime_le (k_run s) T).
-    { unfold otime_eq, otime_le in * . destruct (k_run s); [lia | contradiction]. }
-    unfold kalman_steer. destruct (_ <. _).
-    - eapply aspec_bind with (Q1 := fun _ => True); [apply aspec_lift; [apply steer_target_na | auto]|].
-      intros t _.
-      eapply aspec_bind; [apply change_frequency_aspec; assumption|]. intros s' Hs'.
-      eapply aspec_bind with (Q1 := fun _ => True); [apply aspec_lift; [apply mean_delay_update_na | auto]|].
-      intros md _. apply aspec_ret. exact Hs'.
-    - eapply aspec_bind; [apply kalman_step_aspec; exact Hi|]. intros s' Hs'.
-      eapply aspec_bind with (Q1 := fun _ => True); [apply aspec_lift; [apply mean_delay_update_na | auto]|].
-      intros md _. apply aspec_ret. exact Hs'.
-  Qed.
-
-  Lemma ensure_freq_init_aspec T s : SInv T s -> aspec T (ensure_freq_init s) (SInv T).
-  Proof.
-    intros Hs. unfold ensure_freq_init. destruct (k_cur s); [apply aspec_ret; exact Hs|].
-    eapply aspec_bind with (Q1 := fun _ => True); [apply aspec_call; auto|].
-    intros [t|] _; apply aspec_ret; exact Hs.
-  Qed.
-
-  Lemma absorb_with_aspec T s h z : SInv T s -> aspec T (absorb_with cfg s h z) (SInv T).
-  Proof.
-    intros Hs. unfold absorb_with.
-    eapply aspec_bind; [apply ensure_freq_init_aspec; exact Hs|]. intros s' [A B].
-    eapply aspec_bind with (Q1 := fun _ => True); [apply aspec_lift; [apply variance_factor_na | auto]|].
-    intros v _. apply aspec_ret. unfold SInv, set_run, set_filters; simpl. split; [|exact B].
-    pose proof (base_absorb_offset_time cfg (k_run s') h (dur_seconds z) v) as Ht.
-    unfold otime_eq in * . destruct (k_run s') as [f|]; [|contradiction].
-    destruct (base_absorb_offset cfg (Some f) h (dur_seconds z) v); [lia | contradiction].
-  Qed.
-
-  (** [measurement]: with clock replies not earlier than the event time the
-      assertion is unreachable, whatever the measurement, and the invariant is kept. *)
-  Theorem measurement_assert_unreachable s m :
-    TInv s ->
-    aspec (m_time m) (kalman_measurement exp_fn dbg cfg s m) (fun r => TInv (fst r)).
-  Proof.
-    intros Hi. set (T := m_time m). unfold kalman_measurement.
-    destruct (base_after_filter_time (k_run s) (m_time m)) eqn:Hg; simpl; [|apply aspec_ret; exact Hi].
-    assert (Hr : otime_le (k_run s) T).
-    { unfold base_after_filter_time in Hg. unfold otime_le. destruct (k_run s); [lia | exact I]. }
-    assert (Hw : otime_le (k_wan s) T).
-    { destruct Hi as [Hle Hn]. unfold tle, otime_le in * .
-      destruct (k_wan s) as [w|]; [|exact I]. destruct (k_run s) as [r|]; [lia|].
-      destruct (Hn eq_refl) as [Hx _]. discriminate. }
-    eapply aspec_bind with (Q1 := fun _ => True); [apply aspec_lift; [apply est_absorb_na | auto]|].
-    intros est _.
-    set (s1 := mk_kstate (k_run s) (k_wan s) (k_score s) (k_wander s) (k_wme s) est (k_cur s) (k_near s)).
-    destruct (update_wander_shape exp_fn cfg s1 m Hw) as [U1 U2].
-    eapply aspec_bind with (Q1 := fun s2 => otime_le (k_run s2) T /\ otime_le (k_wan s2) T).
-    { apply aspec_lift; [exact U1|]. intros s2 H2. destruct (U2 s2 H2) as (A & B & C).
-      simpl in A, C. rewrite A. split; [exact Hr|].
-      destruct C as [C | C].
-      - unfold otime_eq, otime_le in * . destruct (k_wan s2); [fold T in C; lia | exact I].
-      - rewrite C. exact Hr. }
-    intros s2 [R2 W2].
-    destruct (base_progress_ok exp_fn cfg (k_run s2) T (k_wander s2) R2) as [P1 P2].
-    eapply aspec_bind with (Q1 := fun run => otime_eq run T); [apply aspec_lift; [exact P1 | exact P2]|].
-    intros run Hrun.
-    assert (H3 : SInv T (set_run s2 run)) by (split; [exact Hrun | exact W2]).
-    eapply aspec_bind with (Q1 := SInv T).
-    { destruct (m_sync m); [apply absorb_with_aspec | apply aspec_ret]; exact H3. }
-    intros s4 H4.
-    eapply aspec_bind with (Q1 := SInv T).
-    { destruct (m_dly m); [apply absorb_with_aspec | apply aspec_ret]; exact H4. }
-    intros s5 H5.
-    eapply aspec_bind with (Q1 := SInv T).
-    { destruct (m_peer m); [| apply aspec_ret; exact H5].
-      eapply aspec_bind with (Q1 := fun _ => True); [apply aspec_lift; [apply variance_factor_na | auto]|].
-      intros v _. apply aspec_ret. destruct H5 as [A B]. split; [|exact B].
-      unfold set_run, set_filters; simpl.
-      pose proof (base_absorb_peer_time (k_run s5) (dur_seconds z) v) as Ht.
-      unfold otime_eq in * . destruct (k_run s5) as [f|]; [|contradiction].
-      destruct (base_absorb_peer (Some f) (dur_seconds z) v); [lia | contradiction]. }
-    intros s6 H6. apply kalman_steer_aspec. exact H6.
-  Qed.
-
-  (** [update] / [demobilize]: replies not earlier than the running filter's time *)
-  Theorem update_assert_unreachable T s :
-    TInv s -> otime_le (k_run s) T ->
-    aspec T (kalman_update dbg cfg s) (fun r => TInv (fst r)).
-  Proof.
-    intros Hi Hr. unfold kalman_update.
-    assert (Hw : otime_le (k_wan s) T).
-    { destruct Hi as [Hle Hn]. unfold tle, otime_le in * .
-      destruct (k_wan s) as [w|]; [|exact I]. destruct (k_run s) as [r|]; [lia|].
-      destruct (Hn eq_refl) as [Hx _]. discriminate. }
-    eapply aspec_bind; [apply change_frequency_aspec; assumption|]. intros s' Hs'.
-    eapply aspec_bind with (Q1 := fun _ => True); [apply aspec_lift; [apply mean_delay_update_na | auto]|].
-    intros md _. apply aspec_ret. exact Hs'.
-  Qed.
-
-  Theorem demobilize_assert_unreachable T s :
-    TInv s -> otime_le (k_run s) T ->
-    aspec T (kalman_demobilize dbg cfg s) (fun _ => True).
-  Proof.
-    intros Hi Hr. unfold kalman_demobilize.
-    assert (Hw : otime_le (k_wan s) T).
-    { destruct Hi as [Hle Hn]. unfold tle, otime_le in * .
-      destruct (k_wan s) as [w|]; [|exact I]. destruct (k_run s) as [r|]; [lia|].
-      destruct (Hn eq_refl) as [Hx _]. discriminate. }
-    eapply aspec_bind; [apply change_frequency_aspec; assumption|]. intros s' _.
-    apply aspec_ret. exact I.
-  Qed.
-
-  Lemma kalman_new_TInv s : kalman_new cfg = Ok s -> TInv s.
-  Proof.
-    unfold kalman_new. intros H. destruct (est_measurement_variance cfg est_default); simpl in H; [|discriminate].
-    inversion H; subst. unfold TInv; simpl. auto.
-  Qed.
-End Events.
-
-(** F15: the assertion IS reachable when the clock returns a time earlier than the
-    running filter's time (event time stamped ahead of the clock). *)
+(* sync at 1000 s (replies 1000 s), then sync at 1001 s whose set_frequency reply is
+   1000 s + 5 ns: before the fix the debug build panicked on the second measurement *)
 Definition f15_events : list event :=
   [M (1000 * NS_PER_S * FRAC) (Some 0) None None (Some 0) None;
    M (1001 * NS_PER_S * FRAC) (Some 0) None None (Some 0) None].
 Definition f15_replies : list reply :=
   [Some (1000 * NS_PER_S * FRAC); Some (1000 * NS_PER_S * FRAC);
-   Some (1000 * NS_PER_S * FRAC + 5 * FRAC)].       (* third reply: 1000 s + 5 ns < event time 1001 s *)
-Definition kalman_default_cfg : kcfg := kcfg_bits 4294967000000000 0 8589934592000000000 4641240890982006784 4645744490609377280 4547007122018943789 4367597403136100796 4493980547052782275 4599676419421066581 4604180019048437077 16 858993459200000000 4 8 4611686018427387904.
-Lemma f15_assert_reachable :
-  map o_res (run_filter exp_eval true (FKalman kalman_default_cfg) f15_events f15_replies) = [Some (true, Some 0); None]
-  /\ map o_res (run_filter exp_eval false (FKalman kalman_default_cfg) f15_events f15_replies) = [Some (true, Some 0); Some (true, Some 0)].
+   Some (1000 * NS_PER_S * FRAC + 5 * FRAC)].
+Lemma f15_site_removed :
+  map o_res (run_filter exp_eval true (FKalman kalman_default_cfg) f15_events f15_replies)
+    = [Some (true, Some 0); Some (true, Some 0)]
+  /\ obs_list_eqb (run_filter exp_eval true (FKalman kalman_default_cfg) f15_events f15_replies)
+                  (run_filter exp_eval false (FKalman kalman_default_cfg) f15_events f15_replies) = true.
 Proof. vm_compute. split; reflexivity. Qed.
